@@ -376,6 +376,22 @@ type SchedResult struct {
 // runSchedule executes the schedule on a fresh tree.  With complete=true the
 // remaining workers are then driven to the end in index order.
 func runSchedule(prog []SOp, sched []int, complete bool) SchedResult {
+	// A deadlock of the code under test is an INERT state (every worker parked,
+	// finished or blocked in a mutex) and is reported through the statuses.  A
+	// timeout of waitInert means that some worker stayed runnable/running
+	// without getting anywhere for 10 s -- on a loaded machine that is
+	// starvation of the harness, not an observation: execute the schedule again.
+	var r SchedResult
+	for attempt := 0; attempt < 3; attempt++ {
+		r = runScheduleOnce(prog, sched, complete)
+		if !r.Hung {
+			break
+		}
+	}
+	return r
+}
+
+func runScheduleOnce(prog []SOp, sched []int, complete bool) SchedResult {
 	c := newController(prog)
 	active.Store(c)
 	defer active.Store(nil)
